@@ -2,7 +2,7 @@
 from checks import oracles
 from checks.conc_check import run_conc
 from checks.durable_check import replay_execution
-from checks.executor_common import STRICT, batch_items_own_outcome, c09, c09_decided_but_suspended, c09_returns_promptly
+from checks.executor_common import STRICT, batch_items_own_outcome, c09, c09_decided_but_suspended, c09_resumed_on_time, c09_returns_promptly
 
 
 def decide_during_resume(ctx, execs):
@@ -45,16 +45,24 @@ def decide_during_resume(ctx, execs):
         for rep in range(2 if ctx.quick else 8):
             items.append((p, {"seed": rng.randrange(1 << 30), "max_inv": 12, "api_latency": (0.0, 0.05)[rep % 2],
                               "strategy": "pct" if rep % 2 else "random", **({"paging": "random"} if rep % 3 == 2 else {})}))
+    # several timers pending at once, registered far-off first: the branch whose (earlier) timer decides the policy is resumed when
+    # that timer is due, not when the far-off one is
+    for far in (30, 600):
+        node = {"k": "par", "cfg": {"min": 1}, "caught": True,
+                "branches": [[{"k": "wait", "s": far}, {"k": "step"}], [{"k": "step", "dur": 0.3}, {"k": "wait", "s": 1}, {"k": "step"}], [{"k": "step", "dur": far + 10.0}]]}
+        for rep in range(2 if ctx.quick else 6):
+            items.append(({"nodes": [node, {"k": "step"}]}, {"seed": rng.randrange(1 << 30), "max_inv": 16, "api_latency": (0.05, 0.3)[rep % 2],
+                                                            "hang_after": 700.0, "strategy": "pct" if rep % 2 else "random"}))
     out = run_campaign(ctx, items)
     for e in out:
-        for fn in (c09, c09_decided_but_suspended, c09_returns_promptly, oracles.c07):
+        for fn in (c09, c09_decided_but_suspended, c09_returns_promptly, c09_resumed_on_time, oracles.c07):
             fn(ctx, e)
     from checks.conc_check import validate_exec_traces
     validate_exec_traces(ctx, out, STRICT["C09"], name="c09_resume_extrace")
 
 
 def run(ctx):
-    run_conc(ctx, invs=STRICT["C09"], oracle_fns=[c09, c09_decided_but_suspended, c09_returns_promptly, batch_items_own_outcome, oracles.c07],
+    run_conc(ctx, invs=STRICT["C09"], oracle_fns=[c09, c09_decided_but_suspended, c09_returns_promptly, c09_resumed_on_time, batch_items_own_outcome, oracles.c07],
              post=decide_during_resume,
              extra_rule="Oracle: one item per input in order; SUCCEEDED/FAILED items carry the branch's own return value / error "
                         "(ground truth recorded inside the branch body); the policy was decided when the call returned; the reason is "
